@@ -235,4 +235,18 @@ def r8_whitespace_notion(ctx):
         one_whitespace_notion(ctx, "R8", F, cfg)
 
 
-RULES = [("R1", r1_trim_table), ("R2", r2_merge), ("R3", r3_expand), ("R4", r4_unknown_skipped), ("R5", r5_trimmer_in_sync), ("R6", r6_pieces_decoded_alike), ("R7", r7_skip_without_buffer), ("R8", r8_whitespace_notion)]
+def r9_references(ctx):
+    """Text written with character or entity references must deserialize like the literal text: the unescaping scan of
+    C10 (every '&' up to its ';' is resolved, everything else is copied, numeric references give exactly their
+    character) is re-evaluated here."""
+    import c10
+    n0 = len(ctx.obs)
+    c10.r4_pairing(ctx)
+    c10.r5_charref(ctx)
+    c10.r6_unescape_copies(ctx)
+    for o in ctx.obs[n0:]:
+        o["site"] = "unescape:" + o["rule"] + ":" + o["site"]
+        o["rule"] = "R9"
+
+
+RULES = [("R1", r1_trim_table), ("R2", r2_merge), ("R3", r3_expand), ("R4", r4_unknown_skipped), ("R5", r5_trimmer_in_sync), ("R6", r6_pieces_decoded_alike), ("R7", r7_skip_without_buffer), ("R8", r8_whitespace_notion), ("R9", r9_references)]
